@@ -262,16 +262,38 @@ func c08ModFile(text string) string {
 func c08Merge(texts []string) string {
 	files := make([]transformer.ModuleFile, len(texts))
 	n := 0
+	// distinct file names, some of which differ only in case, in a "./" prefix or in the kind of slash
+	names := []string{"core.fga", "Core.fga", "./core.fga", "CORE.FGA", "modules/../core.fga", "modules\\core.fga"}
 	for i, t := range texts {
 		files[i] = transformer.ModuleFile{Name: fmt.Sprintf("f%d.fga", i), Contents: t}
+		if len(texts) <= len(names) && len(texts)%2 == 0 {
+			files[i].Name = names[i]
+		}
 		n += len(t)
 	}
-	return guarded("TransformModuleFilesToModel", n, func() {
+	var merr error
+	if msg := guarded("TransformModuleFilesToModel", n, func() {
 		m, err := transformer.TransformModuleFilesToModel(files, "1.2")
+		merr = err
 		if (m == nil) == (err == nil) {
 			panic(fmt.Sprintf("returned model=%v and error=%v", m != nil, err))
 		}
-	})
+	}); msg != "" {
+		return msg
+	}
+	// a syntax error in ANY of the files is reported through the returned error
+	if merr == nil {
+		for i, t := range texts {
+			if len(t) >= 4000 {
+				continue
+			}
+			ok := true
+			if msg := guarded("reference recogniser", len(t), func() { ok = g4.DerivableLenient(repoGrammar(), t) }); msg == "" && !ok {
+				return fmt.Sprintf("module file #%d (%s) is not derivable from the grammar (independent lexer run + .g4 recogniser) but the merge returned no error", i, files[i].Name)
+			}
+		}
+	}
+	return ""
 }
 
 // ---- degenerate protobuf models -------------------------------------------------------------
@@ -473,6 +495,10 @@ func c08Family(name string, n int) string {
 	case "deep-parens":
 		b.WriteString("type doc\n  relations\n    define a: [user]\n    define b: [user]\n    define top: ")
 		b.WriteString(strings.Repeat("(", n) + "a" + strings.Repeat(" or b)", n) + "\n")
+	case "deep-parens-tail":
+		// the nesting stands behind an operator (a non-first operand), closed by n parentheses in a row
+		b.WriteString("type doc\n  relations\n    define a: [user]\n    define b: [user]\n    define top: a")
+		b.WriteString(strings.Repeat(" or (b", n) + strings.Repeat(")", n) + "\n")
 	case "ttu-types":
 		for i := 0; i < n; i++ {
 			fmt.Fprintf(&b, "type t%d\n  relations\n    define parent: [t%d]\n    define viewer: [user] or viewer from parent\n", i, (i+1)%n)
@@ -502,7 +528,7 @@ func c08Family(name string, n int) string {
 	return b.String()
 }
 
-var c08Families = []string{"chain", "diamond-ladder", "diamond-ladder-and", "wide-union", "deep-parens", "ttu-types", "many-restrictions", "userset-ladder", "tuple-cycles"}
+var c08Families = []string{"chain", "diamond-ladder", "diamond-ladder-and", "wide-union", "deep-parens", "deep-parens-tail", "ttu-types", "many-restrictions", "userset-ladder", "tuple-cycles"}
 
 type scaleResult struct {
 	work     [3]uint64  // allocations
